@@ -239,7 +239,7 @@ struct C20 : public Driver {
         if (cont == "string" || cont == "stringpool" || cont == "hashtable" || cont == "cache") p["elem"] = "string";
         else if (cont == "bitmap") p["elem"] = "bit";
         else p["elem"] = elem;
-        if (cont == "map") p["velem"] = velem;
+        if (cont == "map") { p["velem"] = velem; if (run % 5 == 2) p["elem"] = "cstring"; }      // keys as C strings with the library's own traits for them
         p["mode"] = modeB ? "B" : "A";
         Json kn = Json::object();
         static const int SMALL[] = { 1, 1, 2, 2, 3, 3, 5, 7 };
@@ -271,7 +271,7 @@ struct C20 : public Driver {
         else if (c == "set") byElem<SetRun>(R);
         else if (c == "map") {
             const std::string ve = R.plan.str("velem", "int");
-            if (R.elem == "string") mapByValue<StrE>(R, ve); else if (R.elem == "counting") mapByValue<CntE>(R, ve); else mapByValue<IntE>(R, ve);
+            if (R.elem == "string") mapByValue<StrE>(R, ve); else if (R.elem == "counting") mapByValue<CntE>(R, ve); else if (R.elem == "cstring") mapByValue<CStrE>(R, ve); else mapByValue<IntE>(R, ve);
         }
         else if (c == "string") runHistory<StringRun>(R);
         else if (c == "stringpool") runHistory<PoolRun>(R);
